@@ -12,10 +12,7 @@ def main():
     seams.install_fixture_plugins()
     seams.install_registry()
     res = pelrun.decode(bytes.fromhex(job['hex']), job['plugins'])
-    if res['doc'] is not None:
-        print(json.dumps(dict(digest=project.digest(res['doc']), outcome='doc')))
-    else:
-        print(json.dumps(dict(digest=res['outcome'] + ':' + res['detail'].split(':')[0], outcome=res['outcome'])))
+    print(json.dumps(dict(digest=pelrun.full_digest(res), outcome=res['outcome'])))
 
 
 if __name__ == '__main__':
